@@ -65,8 +65,11 @@ type req20 struct {
 
 var keys20 = [][]byte{nil, []byte(""), []byte("a"), []byte("/"), []byte("/r/a"), []byte("/r/\xff\xfe"), []byte("\x00"), []byte("/r/" + strings.Repeat("k", 1024))}
 var vals20 = [][]byte{nil, []byte(""), []byte("v"), []byte("tombstone")}
-var revs20 = []int64{0, 1, base + 1, base + 2, -1, math.MinInt64, math.MaxInt64}
-var limits20 = []int64{-1, 0, 1, math.MaxInt64}
+var revs20 = []int64{0, 1, base + 1, base + 2, -1, math.MinInt64, math.MaxInt64, math.MaxInt64 - 1, 1 << 62}
+
+// limits: exact boundaries AND values just inside them (MaxInt64 itself wraps to "unlimited" when the
+// backend adds one; a huge limit that does not wrap reaches allocation and slice arithmetic)
+var limits20 = []int64{-1, 0, 1, math.MaxInt64, math.MaxInt64 - 1, 1 << 62, 1 << 50, 1 << 31}
 
 func kname(b []byte) string {
 	if b == nil {
@@ -607,7 +610,7 @@ func init() {
 	mc.Register(&mc.Property{
 		ID:     "C20",
 		Level:  "exploration",
-		Rule:   "bounded-exhaustive input enumeration on a real node (etcd and native servers over the metrics-wrapped in-memory engine with the REAL Prometheus client, fresh registry per case): every request of a value lattice (8 keys incl. nil, empty, invalid UTF-8, NUL, 1 KiB; 4 values; 7 revisions incl. negative and extreme; up to 6 range ends; 4 limits; unset sub-messages and oneofs; unsupported shapes) through etcd Txn/Range/Watch/Compact/Put/DeleteRange/LeaseGrant and native Create/Update/Delete/Get/Range/Count/ListPartition/RangeStream/Watch/Compact, singly, and every ORDERED PAIR of a reduced set (the first emission of a metric fixes its label names); after each case the node must still commit and serve a follow-up write; plus a static pass over every Emit* call site resolving name, kind and label-name list; a case is distinct by its request content",
+		Rule:   "bounded-exhaustive input enumeration on a real node (etcd and native servers over the metrics-wrapped in-memory engine with the REAL Prometheus client, fresh registry per case): every request of a value lattice (8 keys incl. nil, empty, invalid UTF-8, NUL, 1 KiB; 4 values; 9 revisions incl. negative and extreme; up to 6 range ends; 8 limits incl. huge non-wrapping ones; unset sub-messages and oneofs; unsupported shapes) through etcd Txn/Range/Watch/Compact/Put/DeleteRange/LeaseGrant and native Create/Update/Delete/Get/Range/Count/ListPartition/RangeStream/Watch/Compact, singly, and every ORDERED PAIR of a reduced set (the first emission of a metric fixes its label names); after each case the node must still commit and serve a follow-up write; plus a static pass over every Emit* call site resolving name, kind and label-name list; a case is distinct by its request content",
 		Assume: []string{"handlers are called directly (gRPC transport and protobuf decoding are not exercised; requests are the structures a decoder can produce: no nil elements in repeated fields)", "leader role; in-memory engine behind the storage metrics wrapper"},
 		Exec:   c20Exec,
 		Drive: func(c *mc.Ctx) {
